@@ -450,6 +450,17 @@ def r4b(ctx):
         if raises or not rets or rets[0][1] != 'True' or not re.fullmatch(want_cond, rets[0][0]):
             probs.append(f'read: first outcome is {rets[:1]} (raises {raises}); must be True exactly when the path is a str with a '
                          'read extension, before the content is looked at')
+        # content branch (ds9, crtf): the signature read from the file equals the constant, as str or as bytes
+        if fmt in ('ds9', 'crtf') and len(rets) > 1:
+            content = rets[1][1]
+            if not re.fullmatch(r"\(\(apply\(attr:read\(.*\), \d+\) == '[^']+'\) or \(apply\(attr:read\(.*\), \d+\) == "
+                                r"apply\(attr:encode\('[^']+'\)\)\)\)", content):
+                probs.append(f'read: the content test is {content[:160]}; must be (signature read == constant) or (== its bytes)')
+        # the canonical extension of the format is a write extension
+        canon = {'ds9': '.reg', 'crtf': '.crtf', 'fits': '.fits'}[fmt]
+        wrets = res['write'][0]
+        if wrets and f"'{canon}'" not in wrets[0][1]:
+            probs.append(f'write: a destination ending in {canon} is not recognised ({wrets[0][1][-60:]})')
         if probs:
             ctx.bad(ident.qualname, 'identifier-semantics', f'{fmt}: ' + '; '.join(probs), ident.loc())
         else:
